@@ -40,7 +40,13 @@ pub struct Parser {
     pub cheap: bool,
     pub run: fn(&[u8], u64) -> R,
     pub seeds: fn(&mut Rng) -> Vec<Seed>,
+    /// auxiliary numbers the model of this cell needs (trained tables, CPU features); empty for most
+    pub aux: fn() -> Vec<u64>,
+    /// the auxiliary numbers are large (a trained contextual encoder): they are defined once per case file
+    /// and parsed once (`cenv` in the shard header); the case carries this key (0 = inline aux)
+    pub env: u32,
 }
+pub fn no_aux() -> Vec<u64> { vec![] }
 
 pub const TRAIN: &[u8] = b"the quick brown fox jumps over the lazy dog. the quick brown fox jumps again and again; \
 pack my box with five dozen liquor jugs! 0123456789 0123456789 AAAAAAAAAAAAAAAABBBBBBBBCCCCDDE \
@@ -185,6 +191,78 @@ fn p_sdi_fixed(b: &[u8], _: u64) -> R {
     let f = i.read_var_int().map_err(es)?;
     Ok(vec![a as i128, c as i128, d as i128, e as i128, f as i128, i.pos() as i128])
 }
+// the same length-prefixed / explicit-length reads through every DataInput implementation
+// (K: 0 slice, 1 std::io::Read, 2 RangeReader over a cursor, 3 mmap file)
+fn with_input<const K: usize, T>(b: &[u8], f: impl FnOnce(&mut dyn FnMut(&mut dyn FnMut(&mut dyn DynIn) -> R) -> R) -> T) -> T {
+    let mut call = |g: &mut dyn FnMut(&mut dyn DynIn) -> R| -> R {
+        match K {
+            0 => g(&mut SliceDataInput::new(b)),
+            1 => g(&mut zipora::io::ReaderDataInput::new(std::io::Cursor::new(b))),
+            2 => g(&mut zipora::io::RangeReader::new(std::io::Cursor::new(b), 0, b.len() as u64)),
+            _ => {
+                let p = tmp_path("dyn_in");
+                std::fs::write(&p, b).map_err(es)?;
+                let r = match zipora::io::MmapDataInput::open(&p) { Ok(mut i) => g(&mut i), Err(e) => Err(es(e)) };
+                let _ = std::fs::remove_file(&p);
+                r
+            }
+        }
+    };
+    f(&mut call)
+}
+/// object-safe view of the DataInput methods the cells use
+trait DynIn {
+    fn lp_bytes(&mut self) -> zipora::Result<Vec<u8>>;
+    fn lp_string(&mut self) -> zipora::Result<String>;
+    fn string(&mut self, n: usize) -> zipora::Result<String>;
+    fn vec(&mut self, n: usize) -> zipora::Result<Vec<u8>>;
+    fn var(&mut self) -> zipora::Result<u64>;
+    fn skip_n(&mut self, n: usize) -> zipora::Result<()>;
+    fn u8_(&mut self) -> zipora::Result<u8>;
+    fn de_string(&mut self) -> zipora::Result<String>;
+    fn de_vec_string(&mut self) -> zipora::Result<Vec<String>>;
+}
+impl<I: DataInput> DynIn for I {
+    fn lp_bytes(&mut self) -> zipora::Result<Vec<u8>> { self.read_length_prefixed_bytes() }
+    fn lp_string(&mut self) -> zipora::Result<String> { self.read_length_prefixed_string() }
+    fn string(&mut self, n: usize) -> zipora::Result<String> { self.read_string(n) }
+    fn vec(&mut self, n: usize) -> zipora::Result<Vec<u8>> { self.read_vec(n) }
+    fn var(&mut self) -> zipora::Result<u64> { self.read_var_int() }
+    fn skip_n(&mut self, n: usize) -> zipora::Result<()> { self.skip(n) }
+    fn u8_(&mut self) -> zipora::Result<u8> { self.read_u8() }
+    fn de_string(&mut self) -> zipora::Result<String> { <String as SerializableType>::deserialize(self) }
+    fn de_vec_string(&mut self) -> zipora::Result<Vec<String>> { <Vec<String> as SerializableType>::deserialize(self) }
+}
+fn p_in_lp_bytes<const K: usize>(b: &[u8], _: u64) -> R {
+    with_input::<K, R>(b, |call| call(&mut |i| i.lp_bytes().map(|v| obs_bytes(&v)).map_err(es)))
+}
+fn p_in_lp_string<const K: usize>(b: &[u8], _: u64) -> R {
+    with_input::<K, R>(b, |call| call(&mut |i| i.lp_string().map(|v| vec![v.len() as i128]).map_err(es)))
+}
+fn p_in_string<const K: usize>(b: &[u8], arg: u64) -> R {
+    with_input::<K, R>(b, |call| call(&mut |i| i.string(usz(arg)).map(|v| vec![v.len() as i128]).map_err(es)))
+}
+fn p_in_vec<const K: usize>(b: &[u8], arg: u64) -> R {
+    with_input::<K, R>(b, |call| call(&mut |i| i.vec(usz(arg)).map(|v| obs_bytes(&v)).map_err(es)))
+}
+fn p_in_skip<const K: usize>(b: &[u8], _: u64) -> R {
+    with_input::<K, R>(b, |call| call(&mut |i| {
+        let n = i.var().map_err(es)?;
+        i.skip_n(n as usize).map_err(es)?;
+        let x = i.u8_().map_err(es)?;
+        Ok(vec![n as i128, x as i128])
+    }))
+}
+fn p_in_de_string<const K: usize>(b: &[u8], _: u64) -> R {
+    with_input::<K, R>(b, |call| call(&mut |i| i.de_string().map(|v| vec![v.len() as i128]).map_err(es)))
+}
+fn p_in_de_vec_string<const K: usize>(b: &[u8], _: u64) -> R {
+    with_input::<K, R>(b, |call| call(&mut |i| i.de_vec_string().map(|v| vec![v.len() as i128]).map_err(es)))
+}
+fn seeds_raw(_r: &mut Rng) -> Vec<Seed> {
+    vec![Seed { bytes: b"hello, world".to_vec(), len: 12 }, Seed { bytes: vec![b'x'; 300], len: 300 }, Seed { bytes: vec![], len: 0 }]
+}
+fn seeds_de_vec_string(_r: &mut Rng) -> Vec<Seed> { vec![s0(ser(&vec!["a".to_string(), "bcd".to_string(), String::new()])), s0(ser(&Vec::<String>::new()))] }
 fn seeds_lp(_r: &mut Rng) -> Vec<Seed> {
     use zipora::io::{DataOutput, VecDataOutput};
     let mut v = vec![];
@@ -265,9 +343,10 @@ thread_local! {
         ContextualHuffmanEncoder::new(TRAIN, HuffmanOrder::Order1).unwrap(),
         ContextualHuffmanEncoder::new(TRAIN, HuffmanOrder::Order2).unwrap(),
     ];
+    // the decoders hold a copy (through serialize / deserialize) of the CTX instances, so that the
+    // tables the model is given (CTX[o].serialize()) are the tables the decoder uses
     static CTXDEC: Vec<ContextualHuffmanDecoder> = (0..3).map(|o| {
-        let order = [HuffmanOrder::Order0, HuffmanOrder::Order1, HuffmanOrder::Order2][o];
-        ContextualHuffmanDecoder::new(ContextualHuffmanEncoder::new(TRAIN, order).unwrap())
+        ContextualHuffmanDecoder::new(CTX.with(|c| ContextualHuffmanEncoder::deserialize(&c[o].serialize()).unwrap()))
     }).collect();
 }
 const PAYLOAD: &[u8] = &[0x5A, 0xC3, 0x00, 0xFF, 0x17, 0x88, 0x31, 0xE2, 0x4D, 0x90, 0x0F, 0xF0, 0xAA, 0x55, 0x01, 0x80];
@@ -293,6 +372,31 @@ fn p_ctx_decode_x<const N: usize>(b: &[u8], arg: u64) -> R {
             .map(|v| obs_bytes(&v)).map_err(es)
     })
 }
+fn b64v(v: Vec<u8>) -> Vec<u64> { v.into_iter().map(|x| x as u64).collect() }
+fn aux_huff() -> Vec<u64> { b64v(HUFF.with(|h| h.0.tree().serialize())) }
+fn aux_ctx<const O: usize>() -> Vec<u64> { b64v(CTX.with(|c| c[O].serialize())) }
+fn aux_ctx_mono<const O: usize>() -> Vec<u64> { b64v(CTX_MONO.with(|c| c[O].serialize())) }
+/// small hand-made contextual encoders (deserialize does not ask for complete alphabets): short enough
+/// for the Coq cases.  tree = [count u16][symbol, code_len, code bytes]*
+fn crafted_ctx() -> Vec<Vec<u8>> {
+    let t_abc: Vec<u8> = vec![3, 0, b'a', 1, 0b0, b'b', 2, 0b01, b'c', 2, 0b11];
+    let t_ab: Vec<u8> = vec![2, 0, b'a', 1, 0b1, b'b', 1, 0b0];
+    let t_one: Vec<u8> = vec![1, 0, b'z', 1, 0];
+    let t_long: Vec<u8> = vec![3, 0, 0x5A, 1, 0, 0xC3, 9, 0xFF, 0x00, 0x00, 14, 0xFD, 0x3F];
+    let mk = |order: u8, map: &[(u32, u32)], trees: &[&Vec<u8>]| -> Vec<u8> {
+        let mut v = vec![order];
+        v.extend_from_slice(&(trees.len() as u32).to_le_bytes());
+        v.extend_from_slice(&(map.len() as u32).to_le_bytes());
+        for (c, i) in map { v.extend_from_slice(&c.to_le_bytes()); v.extend_from_slice(&i.to_le_bytes()); }
+        for t in trees { v.extend_from_slice(&(t.len() as u32).to_le_bytes()); v.extend_from_slice(t); }
+        v
+    };
+    vec![
+        mk(1, &[(b'a' as u32, 1), (b'b' as u32, 2)], &[&t_abc, &t_ab, &t_one]),
+        mk(0, &[(0, 0)], &[&t_long]),
+        mk(2, &[((b'a' as u32) << 8 | b'b' as u32, 1), (0x5AC3, 0)], &[&t_long, &t_abc]),
+    ]
+}
 fn seeds_huff_tree(r: &mut Rng) -> Vec<Seed> {
     let mut v = vec![];
     for m in messages(r) { if let Ok(e) = HuffmanEncoder::new(&m) { v.push(s0(e.tree().serialize())); } }
@@ -305,7 +409,8 @@ fn seeds_huff_decode(r: &mut Rng) -> Vec<Seed> {
 fn seeds_huff_tree_then_decode(r: &mut Rng) -> Vec<Seed> { seeds_huff_tree(r).into_iter().map(|s| Seed { bytes: s.bytes, len: 20 }).collect() }
 fn seeds_ctx_deser(_r: &mut Rng) -> Vec<Seed> {
     let small = b"abababab abcabc aabbcc";
-    let mut v: Vec<Seed> = CTX.with(|c| c.iter().map(|e| Seed { bytes: e.serialize(), len: 12 }).collect());
+    let mut v: Vec<Seed> = crafted_ctx().into_iter().map(|b| Seed { bytes: b, len: 12 }).collect();
+    v.extend(CTX.with(|c| c.iter().map(|e| Seed { bytes: e.serialize(), len: 12 }).collect::<Vec<_>>()));
     for o in [HuffmanOrder::Order0, HuffmanOrder::Order1, HuffmanOrder::Order2] {
         if let Ok(e) = ContextualHuffmanEncoder::new(small, o) { v.push(Seed { bytes: e.serialize(), len: 12 }); }
     }
@@ -357,6 +462,17 @@ thread_local! {
     static RANS8: (Rans64Encoder<ParallelX8>, RansDecoder<ParallelX8>) = { let e = Rans64Encoder::<ParallelX8>::new(&rans_freqs()).unwrap(); let d = RansDecoder::new(&e); (e, d) };
 }
 fn rans_msgs() -> Vec<Vec<u8>> { vec![b"the quick".to_vec(), TRAIN[..90].to_vec(), b"j".to_vec(), b"aaaaaaaaaaaaaaaaaaaaaaaaaaaaaaaaaaaaaaaa".to_vec()] }
+fn aux_rans<const N: usize>() -> Vec<u64> {
+    match N {
+        1 => RANS1.with(|x| (0..256).map(|i| x.0.get_symbol(i as u8).freq as u64).collect()),
+        2 => RANS2.with(|x| (0..256).map(|i| x.0.get_symbol(i as u8).freq as u64).collect()),
+        4 => RANS4.with(|x| (0..256).map(|i| x.0.get_symbol(i as u8).freq as u64).collect()),
+        _ => RANS8.with(|x| (0..256).map(|i| x.0.get_symbol(i as u8).freq as u64).collect()),
+    }
+}
+fn aux_rans_mono<const N: usize>() -> Vec<u64> {
+    RANS_MONO.with(|x| (0..256).map(|i| if N == 1 { x.0.get_symbol(i as u8).freq } else { x.2.get_symbol(i as u8).freq } as u64).collect())
+}
 macro_rules! rans_fns { ($p:ident, $s:ident, $tl:ident) => {
     fn $p(b: &[u8], arg: u64) -> R { $tl.with(|x| x.1.decode(b, usz(arg)).map(|v| obs_bytes(&v)).map_err(es)) }
     fn $s(_r: &mut Rng) -> Vec<Seed> {
@@ -459,7 +575,11 @@ fn sample_matches() -> Vec<Vec<pz::Match>> {
     ]
 }
 fn seeds_pz_matches(_r: &mut Rng) -> Vec<Seed> {
-    sample_matches().into_iter().filter_map(|ms| crate::util::guarded(|| pz::encode_matches(&ms).ok()).ok().flatten()).map(|(b, _)| s0(b)).collect()
+    // first: a hand-packed stream the encoder refuses to write - Global{0, 6} followed by Far2Long with
+    // distance 0 (copy_backward_reference must reject it: `i % (len - start)` would divide by zero)
+    let mut v = vec![s0(vec![1, 0, 0, 0, 48, 0, 48, 0, 0, 0])];
+    v.extend(sample_matches().into_iter().filter_map(|ms| crate::util::guarded(|| pz::encode_matches(&ms).ok()).ok().flatten()).map(|(b, _)| s0(b)));
+    v
 }
 thread_local! {
     static PAZIP: RefCell<Option<zipora::compression::dict_zip::PaZipCompressor>> = RefCell::new({
@@ -525,9 +645,14 @@ fn p_sorted_uint_vec(b: &[u8], _: u64) -> R {
 fn seeds_sorted_uint_vec(r: &mut Rng) -> Vec<Seed> {
     use zipora::blob_store::{SortedUintVecBuilder, SortedUintVecConfig};
     let mut v = vec![];
-    for (cfg, n) in [(SortedUintVecConfig::default(), 200u64), (SortedUintVecConfig::performance_optimized(), 70), (SortedUintVecConfig::memory_optimized(), 5), (SortedUintVecConfig::default(), 0)] {
-        let mut acc = 0u64;
-        let vals: Vec<u64> = (0..n).map(|_| { acc += r.below(300); acc }).collect();
+    // the last two: 64-bit samples (the only width whose sample plus a delta can leave u64), values next to u64::MAX
+    let wide = SortedUintVecConfig { log2_block_units: 4, offset_width: 8, sample_width: 64, use_simd: false };
+    let wide_simd = SortedUintVecConfig { log2_block_units: 4, offset_width: 12, sample_width: 64, use_simd: true };
+    for (k, (cfg, n)) in [(SortedUintVecConfig::default(), 200u64), (SortedUintVecConfig::performance_optimized(), 70), (SortedUintVecConfig::memory_optimized(), 5), (SortedUintVecConfig::default(), 0), (wide, 20), (wide_simd, 40)].into_iter().enumerate() {
+        let mut acc = if k >= 4 { u64::MAX - 200 } else { 0u64 };
+        let r = &mut *r;
+        let mut below = |m: u64| if k >= 4 { r.below(4) } else { r.below(m) };
+        let vals: Vec<u64> = (0..n).map(|_| { acc += below(300); acc }).collect();
         let res = crate::util::guarded(|| -> Option<Vec<u8>> {
             let mut b = SortedUintVecBuilder::with_config(cfg);
             for &x in &vals { b.push(x).ok()?; }
@@ -540,11 +665,21 @@ fn seeds_sorted_uint_vec(r: &mut Rng) -> Vec<Seed> {
 fn seeds_zip_offset(_r: &mut Rng) -> Vec<Seed> {
     use zipora::blob_store::{ZipOffsetBlobStoreBuilder, ZipOffsetBlobStoreConfig};
     let mut v = vec![];
-    for lvl in [0u8, 3] {
+    // (compression, checksum level, records): the third and fourth have a content section that is a multiple
+    // of 16 bytes (no padding), the others need 1..15 bytes of padding
+    let recs: [(u8, u8, Vec<&[u8]>); 6] = [
+        (0, 2, vec![&b"first record"[..], &b""[..], &TRAIN[..70]]),
+        (3, 2, vec![&b"first record"[..], &b""[..], &TRAIN[..70]]),
+        (0, 2, vec![&b"twelve bytes"[..]]),
+        (0, 0, vec![&TRAIN[..20], &TRAIN[20..32]]),
+        (0, 0, vec![&TRAIN[..33], &b""[..], &b"x"[..]]),
+        (0, 3, vec![]),
+    ];
+    for (lvl, ck, rs) in recs {
         let r = crate::util::guarded(|| -> Option<Vec<u8>> {
-            let cfg = ZipOffsetBlobStoreConfig { compress_level: lvl, ..Default::default() };
+            let cfg = ZipOffsetBlobStoreConfig { compress_level: lvl, checksum_level: ck, ..Default::default() };
             let mut b = ZipOffsetBlobStoreBuilder::with_config(cfg).ok()?;
-            for m in [&b"first record"[..], &b""[..], &TRAIN[..70]] { b.add_record(m).ok()?; }
+            for m in rs.iter() { b.add_record(m).ok()?; }
             let s = b.finish().ok()?;
             let mut out = Vec::new();
             s.save_to_writer(&mut out).ok()?;
@@ -766,9 +901,12 @@ fn seeds_mmapped_input(_r: &mut Rng) -> Vec<Seed> { vec![s0(vec![0x85, 0x01, 4, 
 // emit output without consuming input - the expected-length argument / size field is the only bound
 const MONO: &[u8] = b"aaaaaaaaaaaaaaaaaaaaaaaaaaaaaaaa";
 thread_local! {
-    static CTXDEC_MONO: Vec<ContextualHuffmanDecoder> = (0..3).map(|o| {
+    static CTX_MONO: Vec<ContextualHuffmanEncoder> = (0..3).map(|o| {
         let order = [HuffmanOrder::Order0, HuffmanOrder::Order1, HuffmanOrder::Order2][o];
-        ContextualHuffmanDecoder::new(ContextualHuffmanEncoder::new(MONO, order).unwrap())
+        ContextualHuffmanEncoder::new(MONO, order).unwrap()
+    }).collect();
+    static CTXDEC_MONO: Vec<ContextualHuffmanDecoder> = (0..3).map(|o| {
+        ContextualHuffmanDecoder::new(CTX_MONO.with(|c| ContextualHuffmanEncoder::deserialize(&c[o].serialize()).unwrap()))
     }).collect();
     static RANS_MONO: (Rans64Encoder<ParallelX1>, RansDecoder<ParallelX1>, Rans64Encoder<ParallelX4>, RansDecoder<ParallelX4>) = {
         let mut f = [0u32; 256]; f[b'a' as usize] = 32;
@@ -806,7 +944,13 @@ fn seeds_comp_mono<const A: usize>(_r: &mut Rng) -> Vec<Seed> {
 
 macro_rules! P {
     ($name:expr, $model:expr, $arg:expr, $cheap:expr, $run:expr, $seeds:expr) => {
-        Parser { name: $name, model: $model, has_arg: $arg, cheap: $cheap, run: $run, seeds: $seeds }
+        Parser { name: $name, model: $model, has_arg: $arg, cheap: $cheap, run: $run, seeds: $seeds, aux: no_aux, env: 0 }
+    };
+    ($name:expr, $model:expr, $arg:expr, $cheap:expr, $run:expr, $seeds:expr, $aux:expr) => {
+        Parser { name: $name, model: $model, has_arg: $arg, cheap: $cheap, run: $run, seeds: $seeds, aux: $aux, env: 0 }
+    };
+    ($name:expr, $model:expr, $arg:expr, $cheap:expr, $run:expr, $seeds:expr, $aux:expr, $env:expr) => {
+        Parser { name: $name, model: $model, has_arg: $arg, cheap: $cheap, run: $run, seeds: $seeds, aux: $aux, env: $env }
     };
 }
 
@@ -846,43 +990,43 @@ pub fn parsers() -> Vec<Parser> {
         P!("SmartPtrSerializer/Rc<String>", 0, false, true, p_sp_rc, seeds_sp_rc),
         P!("SmartPtrSerializer/Arc<Vec<u64>>", 0, false, true, p_sp_arc, seeds_sp_arc),
         P!("SmartPtrSerializer/Option<Box<String>>", 0, false, true, p_sp_optbox, seeds_sp_optbox),
-        P!("HuffmanTree::deserialize", 0, false, true, p_huff_tree, seeds_huff_tree),
-        P!("HuffmanDecoder::decode", 0, true, false, p_huff_decode, seeds_huff_decode),
-        P!("HuffmanTree::deserialize+decode", 0, true, false, p_huff_tree_then_decode, seeds_huff_tree_then_decode),
-        P!("ContextualHuffmanEncoder::deserialize", 0, false, false, p_ctx_deser, seeds_ctx_deser),
-        P!("ContextualHuffmanEncoder::deserialize+decode", 0, true, false, p_ctx_deser_then_decode, seeds_ctx_deser),
-        P!("ContextualHuffmanDecoder/order0", 0, true, false, p_ctx_decode::<0>, seeds_ctx_decode::<0>),
-        P!("ContextualHuffmanDecoder/order1", 0, true, false, p_ctx_decode::<1>, seeds_ctx_decode::<1>),
-        P!("ContextualHuffmanDecoder/order2", 0, true, false, p_ctx_decode::<2>, seeds_ctx_decode::<2>),
-        P!("ContextualHuffman/decode_x1", 0, true, false, p_ctx_decode_x::<1>, seeds_ctx_decode_x::<1>),
-        P!("ContextualHuffman/decode_x2", 0, true, false, p_ctx_decode_x::<2>, seeds_ctx_decode_x::<2>),
-        P!("ContextualHuffman/decode_x4", 0, true, false, p_ctx_decode_x::<4>, seeds_ctx_decode_x::<4>),
-        P!("ContextualHuffman/decode_x8", 0, true, false, p_ctx_decode_x::<8>, seeds_ctx_decode_x::<8>),
-        P!("fse_decompress", 0, false, false, p_fse, seeds_fse),
+        P!("HuffmanTree::deserialize", 100, false, true, p_huff_tree, seeds_huff_tree),
+        P!("HuffmanDecoder::decode", 101, true, false, p_huff_decode, seeds_huff_decode, aux_huff),
+        P!("HuffmanTree::deserialize+decode", 102, true, false, p_huff_tree_then_decode, seeds_huff_tree_then_decode),
+        P!("ContextualHuffmanEncoder::deserialize", 103, false, false, p_ctx_deser, seeds_ctx_deser),
+        P!("ContextualHuffmanEncoder::deserialize+decode", 104, true, false, p_ctx_deser_then_decode, seeds_ctx_deser),
+        P!("ContextualHuffmanDecoder/order0", 105, true, false, p_ctx_decode::<0>, seeds_ctx_decode::<0>, aux_ctx::<0>, 1),
+        P!("ContextualHuffmanDecoder/order1", 105, true, false, p_ctx_decode::<1>, seeds_ctx_decode::<1>, aux_ctx::<1>, 2),
+        P!("ContextualHuffmanDecoder/order2", 105, true, false, p_ctx_decode::<2>, seeds_ctx_decode::<2>, aux_ctx::<2>, 3),
+        P!("ContextualHuffman/decode_x1", 108, true, false, p_ctx_decode_x::<1>, seeds_ctx_decode_x::<1>, aux_ctx::<1>, 2),
+        P!("ContextualHuffman/decode_x2", 109, true, false, p_ctx_decode_x::<2>, seeds_ctx_decode_x::<2>, aux_ctx::<1>, 2),
+        P!("ContextualHuffman/decode_x4", 110, true, false, p_ctx_decode_x::<4>, seeds_ctx_decode_x::<4>, aux_ctx::<1>, 2),
+        P!("ContextualHuffman/decode_x8", 111, true, false, p_ctx_decode_x::<8>, seeds_ctx_decode_x::<8>, aux_ctx::<1>, 2),
+        P!("fse_decompress", 130, false, false, p_fse, seeds_fse),
         P!("remove_fse_compression", 0, false, false, p_fse_remove, seeds_fse_remove),
-        P!("Rans64Decoder/x1", 0, true, false, p_rans1, seeds_rans1),
-        P!("Rans64Decoder/x2", 0, true, false, p_rans2, seeds_rans2),
-        P!("Rans64Decoder/x4", 0, true, false, p_rans4, seeds_rans4),
-        P!("Rans64Decoder/x8", 0, true, false, p_rans8, seeds_rans8),
-        P!("Dictionary::deserialize", 0, false, true, p_dict_deser, seeds_dict_deser),
+        P!("Rans64Decoder/x1", 120, true, false, p_rans1, seeds_rans1, aux_rans::<1>),
+        P!("Rans64Decoder/x2", 121, true, false, p_rans2, seeds_rans2, aux_rans::<2>),
+        P!("Rans64Decoder/x4", 122, true, false, p_rans4, seeds_rans4, aux_rans::<4>),
+        P!("Rans64Decoder/x8", 123, true, false, p_rans8, seeds_rans8, aux_rans::<8>),
+        P!("Dictionary::deserialize", 142, false, true, p_dict_deser, seeds_dict_deser),
         P!("DictionaryCompressor::decompress", 61, false, true, p_dict_decomp, seeds_dict_decomp),
         P!("OptimizedDictionaryCompressor::decompress", 61, false, true, p_odict_decomp, seeds_odict_decomp),
-        P!("SimdLz77Compressor::decompress", 0, false, false, p_simd_lz77, seeds_simd_lz77),
+        P!("SimdLz77Compressor::decompress", 143, false, false, p_simd_lz77, seeds_simd_lz77),
         P!("pa_zip/decode_match", 70, false, true, p_pz_match, seeds_pz_matches),
         P!("pa_zip/decode_matches", 71, false, true, p_pz_matches, seeds_pz_matches),
         P!("PaZipCompressor::decompress", 0, false, false, p_pazip, seeds_pazip),
-        P!("ZipOffsetBlobStore::load_from_reader", 0, false, false, p_zip_offset, seeds_zip_offset),
-        P!("SortedUintVec::from_bytes", 0, false, false, p_sorted_uint_vec, seeds_sorted_uint_vec),
-        P!("ZReorderMap::open", 0, false, false, p_reorder_map, seeds_reorder_map),
-        P!("MmapVec::open", 0, false, false, p_mmap_vec, seeds_mmap_vec),
+        P!("ZipOffsetBlobStore::load_from_reader", 91, false, false, p_zip_offset, seeds_zip_offset),
+        P!("SortedUintVec::from_bytes", 90, false, false, p_sorted_uint_vec, seeds_sorted_uint_vec),
+        P!("ZReorderMap::open", 141, false, false, p_reorder_map, seeds_reorder_map),
+        P!("MmapVec::open", 140, false, false, p_mmap_vec, seeds_mmap_vec),
         P!("MmapDataInput", 0, false, false, p_mmap_input, seeds_mmap_input),
         P!("hex_decode_bytes", 80, false, true, p_hex_bytes, seeds_hex),
-        P!("hex_decode", 0, false, true, p_hex_str, seeds_hex),
+        P!("hex_decode", 82, false, true, p_hex_str, seeds_hex),
         P!("hex_decode_to_slice", 81, true, true, p_hex_slice, seeds_hex),
-        P!("base64/standard", 0, false, true, p_b64::<0>, seeds_b64::<0>),
-        P!("base64/url_safe", 0, false, true, p_b64::<1>, seeds_b64::<1>),
-        P!("base64/standard_no_pad", 0, false, true, p_b64::<2>, seeds_b64::<2>),
-        P!("base64/url_safe_no_pad", 0, false, true, p_b64::<3>, seeds_b64::<3>),
+        P!("base64/standard", 150, false, true, p_b64::<0>, seeds_b64::<0>),
+        P!("base64/url_safe", 151, false, true, p_b64::<1>, seeds_b64::<1>),
+        P!("base64/standard_no_pad", 152, false, true, p_b64::<2>, seeds_b64::<2>),
+        P!("base64/url_safe_no_pad", 153, false, true, p_b64::<3>, seeds_b64::<3>),
         P!("base64_decode_simd", 0, false, true, p_b64::<4>, seeds_b64::<4>),
         P!("simd_encoding/decode_varint", 0, false, true, p_simd_varint, seeds_simd_varint),
         P!("simd_encoding/decode_varint_batch", 0, true, true, p_simd_varint_batch, seeds_simd_varint_batch),
@@ -890,25 +1034,36 @@ pub fn parsers() -> Vec<Parser> {
         P!("simd_encoding/decode_base64_from_buffer", 0, true, true, p_simd_b64_buf, seeds_b64_len),
         P!("SuffixArrayDictionary::deserialize", 0, false, false, p_sa_dict, seeds_sa_dict),
         P!("DfaCache::deserialize", 0, false, false, p_dfa_cache, seeds_dfa_cache),
-        P!("fse_decompress_with_config/fast", 0, false, false, p_fse_cfg::<0>, seeds_fse_cfg::<0>),
-        P!("fse_decompress_with_config/high", 0, false, false, p_fse_cfg::<1>, seeds_fse_cfg::<1>),
-        P!("fse_decompress_with_config/realtime", 0, false, false, p_fse_cfg::<2>, seeds_fse_cfg::<2>),
-        P!("SimdLz77CompressorX1::decompress", 0, false, false, p_slz_x1, seeds_slz_x1),
-        P!("SimdLz77CompressorX2::decompress", 0, false, false, p_slz_x2, seeds_slz_x2),
-        P!("SimdLz77CompressorX4::decompress", 0, false, false, p_slz_x4, seeds_slz_x4),
-        P!("SimdLz77CompressorX8::decompress", 0, false, false, p_slz_x8, seeds_slz_x8),
-        P!("decompress_with_simd_lz77", 0, false, false, p_slz_global, seeds_simd_lz77),
+        P!("fse_decompress_with_config/fast", 130, false, false, p_fse_cfg::<0>, seeds_fse_cfg::<0>),
+        P!("fse_decompress_with_config/high", 130, false, false, p_fse_cfg::<1>, seeds_fse_cfg::<1>),
+        P!("fse_decompress_with_config/realtime", 130, false, false, p_fse_cfg::<2>, seeds_fse_cfg::<2>),
+        P!("SimdLz77CompressorX1::decompress", 143, false, false, p_slz_x1, seeds_slz_x1),
+        P!("SimdLz77CompressorX2::decompress", 143, false, false, p_slz_x2, seeds_slz_x2),
+        P!("SimdLz77CompressorX4::decompress", 143, false, false, p_slz_x4, seeds_slz_x4),
+        P!("SimdLz77CompressorX8::decompress", 143, false, false, p_slz_x8, seeds_slz_x8),
+        P!("decompress_with_simd_lz77", 143, false, false, p_slz_global, seeds_simd_lz77),
         P!("MemoryMappedInput", 0, false, false, p_mmapped_input, seeds_mmapped_input),
-        P!("ContextualHuffmanDecoder/order0/single_symbol_model", 0, true, false, p_ctx_mono::<0>, seeds_ctx_mono::<0>),
-        P!("ContextualHuffmanDecoder/order1/single_symbol_model", 0, true, false, p_ctx_mono::<1>, seeds_ctx_mono::<1>),
-        P!("ContextualHuffmanDecoder/order2/single_symbol_model", 0, true, false, p_ctx_mono::<2>, seeds_ctx_mono::<2>),
-        P!("Rans64Decoder/x1/single_symbol_model", 0, true, false, p_rans_mono::<1>, seeds_rans_mono::<1>),
-        P!("Rans64Decoder/x4/single_symbol_model", 0, true, false, p_rans_mono::<4>, seeds_rans_mono::<4>),
+        P!("ContextualHuffmanDecoder/order0/single_symbol_model", 105, true, false, p_ctx_mono::<0>, seeds_ctx_mono::<0>, aux_ctx_mono::<0>, 4),
+        P!("ContextualHuffmanDecoder/order1/single_symbol_model", 105, true, false, p_ctx_mono::<1>, seeds_ctx_mono::<1>, aux_ctx_mono::<1>, 5),
+        P!("ContextualHuffmanDecoder/order2/single_symbol_model", 105, true, false, p_ctx_mono::<2>, seeds_ctx_mono::<2>, aux_ctx_mono::<2>, 6),
+        P!("Rans64Decoder/x1/single_symbol_model", 120, true, false, p_rans_mono::<1>, seeds_rans_mono::<1>, aux_rans_mono::<1>),
+        P!("Rans64Decoder/x4/single_symbol_model", 122, true, false, p_rans_mono::<4>, seeds_rans_mono::<4>, aux_rans_mono::<4>),
         P!("Compressor/huffman/decompress/single_symbol_model", 0, false, false, p_comp_mono::<3>, seeds_comp_mono::<3>),
         P!("Compressor/rans/decompress/single_symbol_model", 0, false, false, p_comp_mono::<4>, seeds_comp_mono::<4>),
         P!("Compressor/dictionary/decompress/single_symbol_model", 0, false, false, p_comp_mono::<5>, seeds_comp_mono::<5>),
         P!("Compressor/hybrid/decompress/single_symbol_model", 0, false, false, p_comp_mono::<7>, seeds_comp_mono::<7>),
     ]);
+    const KINDS: [&str; 4] = ["SliceDataInput", "ReaderDataInput", "RangeReader", "MmapDataInput"];
+    macro_rules! inputs { ($($k:literal),*) => { $(
+        if $k != 0 { v.push(P!(Box::leak(format!("{}/read_length_prefixed_bytes", KINDS[$k]).into_boxed_str()), 53, false, $k != 3, p_in_lp_bytes::<$k>, seeds_lp)); }
+        if $k != 0 { v.push(P!(Box::leak(format!("{}/read_length_prefixed_string", KINDS[$k]).into_boxed_str()), 0, false, $k != 3, p_in_lp_string::<$k>, seeds_lp)); }
+        v.push(P!(Box::leak(format!("{}/read_string(len)", KINDS[$k]).into_boxed_str()), 0, true, $k != 3, p_in_string::<$k>, seeds_raw));
+        v.push(P!(Box::leak(format!("{}/read_vec(len)", KINDS[$k]).into_boxed_str()), 54, true, $k != 3, p_in_vec::<$k>, seeds_raw));
+        if $k != 0 { v.push(P!(Box::leak(format!("{}/var_int+skip+read_u8", KINDS[$k]).into_boxed_str()), 0, false, $k != 3, p_in_skip::<$k>, seeds_sdi_skip)); }
+        v.push(P!(Box::leak(format!("{}/String::deserialize", KINDS[$k]).into_boxed_str()), 0, false, $k != 3, p_in_de_string::<$k>, seeds_lp));
+        v.push(P!(Box::leak(format!("{}/Vec<String>::deserialize", KINDS[$k]).into_boxed_str()), 0, false, $k != 3, p_in_de_vec_string::<$k>, seeds_de_vec_string));
+    )* } }
+    inputs!(0, 1, 2, 3);
     macro_rules! comp { ($($a:literal),*) => { $(
         v.push(P!(Box::leak(format!("Compressor/{}/decompress", ALGS[$a].0).into_boxed_str()), 0, false, false, p_comp::<$a>, seeds_comp::<$a>));
     )* } }
